@@ -296,6 +296,12 @@ def oracle_post(chk, case, out, rec):
         return
     if kicked > budget * (1 - 1e-9) - 1e-12 * tot:
         return  # knife edge
+    Mk_, _ = rec.get("after", (M, N))
+    if budget - kicked > math.fsum(Mk_) * (1 + 1e-9) + 1e-300:
+        chk.count("asked to eject more than exists")
+        if out != ("Err", "PostErrEject", None):
+            chk.fail("row: ejecting more than the BH mass that exists raises ValueError", case, out)
+        return
     if out[0] == "Err":
         Mk, Nk = rec.get("after", (M, N))
         chk.fail("row: a feasible retention must not raise", case, out, budget=budget - kicked, M_after_kicks=Mk,
@@ -366,12 +372,14 @@ def run(chk):
         if rng.random() < 0.8 and M[0] == 0:
             M[0], N[0] = 40.0 * rng.uniform(0.5, 2), rng.uniform(1, 5)
         ret = rng.choice([0.0, 1.0, 1.0, 0.5, rng.random(), rng.random() ** 4, 1 - rng.random() ** 4,
-                          1e-4 * rng.random()])
+                          1e-4 * rng.random(), -0.05, -1.0, 1.2])
         rf = None
         if rng.random() < 0.4:
             rf = [rng.choice([1.0, rng.random(), 1 - rng.random() ** 3]) for _ in range(nb)]
-        T = 12000.0 if rng.random() < 0.9 else 1.0
-        case = dict(car=k % len(cars), M=M, N=N, ret_dyn=ret, rfac=rf, T=T, formed=T > 5.0)
+        # BHs exist from the lifetime of the heaviest BH progenitor of the IFMR on (computed here from the lifetime law)
+        gate = float(car.compute_tms(car.IFMR.BH_mi.upper))
+        T = rng.choice([12000.0, 12000.0, 12000.0, 0.5 * gate, float(np.nextafter(gate, 0)), gate * 1.02, max(1.9, gate * 1.1), 2.1, 3.0, 5.0, 40.0])
+        case = dict(car=k % len(cars), M=M, N=N, ret_dyn=ret, rfac=rf, T=T, formed=bool(T > gate))
         out, rec = run_post(car, M, N, ret, rf, T)
         pcases.append(case)
         pimpl.append(out)
@@ -389,14 +397,15 @@ def run(chk):
             M[0], N[0] = 40.0 * rng.uniform(0.5, 2), rng.uniform(1, 5)
         ret = rng.choice([1.0, 0.5, 0.3 + 0.6 * rng.random(), 0.8])
         rf = [rng.choice([1.0, 1 - 0.2 * rng.random()]) for _ in range(nb)] if rng.random() < 0.5 else None
-        Ts = rng.sample([12000.0, 9000.0, 3000.0, 100.0, 1.0], rng.choice([2, 3]))
+        Ts = rng.sample([12000.0, 9000.0, 3000.0, 100.0, 0.3, 2.0, 4.0], rng.choice([2, 3]))
         outs, recs = run_post_rows(car, M, N, ret, rf, Ts)
         formed_recs = iter(recs)
         for irow in np.argsort(Ts):            # rows are processed in time order; one kick record per formed row
             T = Ts[irow]
-            case = dict(car=k % len(cars), M=M, N=N, ret_dyn=ret, rfac=rf, T=T, formed=T > 5.0, schedule=Ts, row=int(irow))
-            rec = next(formed_recs, {}) if (rf is not None and T > 5.0) else {}
-            if outs[irow][0] == "Err" and T <= 5.0:
+            gate = float(car.compute_tms(car.IFMR.BH_mi.upper))
+            case = dict(car=k % len(cars), M=M, N=N, ret_dyn=ret, rfac=rf, T=T, formed=bool(T > gate), schedule=Ts, row=int(irow))
+            rec = next(formed_recs, {}) if (rf is not None and T > gate) else {}
+            if outs[irow][0] == "Err" and T <= gate:
                 continue      # the construction raised at a later (formed) row: that row is judged, by the single-row rules
             chk.note_distinct(case)
             pcases.append(case)
